@@ -29,14 +29,14 @@ UNIT = dict(
   drops='templates (value_type / raw_value_type = opaque non-null word below 2^48); marked_ptr, guard_ptr and marked_value are marked_ptr<_,16>: one 64-bit word with the contract of unit mp; '
         'segments live in a pool, a segment pointer is pool index + 1; guard_ptr operations are stubs (acquire = snapshot + protect, reclaim = retire); alloc_segment (operator new + placement new) and '
         'release_segment (~segment + operator delete) are stubs over ghost allocated/released counters, the assertion loop of ~segment becomes the precondition "all items null" of release; find_index<Empty> lowered twice; '
-        'the lambdas try_pop passes to do_pop are extracted as functions; by-reference parameters are pointers; pop() (std::optional flavour of the same do_pop) is not lowered',
+        'the lambdas try_pop passes to do_pop are extracted as functions; by-reference parameters are pointers; the lambdas of pop() (std::optional flavour of the same do_pop) are extracted too (run pop_optional)',
   assumptions=['marked_ptr<_,16> make/get/mark: contract of unit mp (C15)',
                'guard_ptr acquire/reclaim: contract of the reclaimer units (C01/C15): acquire returns the value of one atomic load of the cell and protects it, reclaim retires the protected node and resets the guard',
                'pointer_queue_traits get_raw/release/store/delete_value: ownership stubs (text covered by the C07 traits unit)',
                'operator new does not fail (alloc_segment has no failure path of its own); 16-bit marks do not wrap during one operation',
                '[INT] rely of kfq.push.commit: head moves forward one segment at a time, a segment is marked deleted before head leaves it and only by a thread that found it empty while it was head, '
                'a head CAS prepared before the item was inserted can still succeed until the head word changes, the inserted item only ever changes by being taken'],
-  consts=[dict(name='XV_SLOT_MARK_BITS', file=F, regex=r'using marked_value = xenium::marked_ptr<std::remove_pointer_t<raw_value_type>,\s*(\d+)>;'), dict(name='XV_MAX_UPPER_MARK_BITS', file='xenium/marked_ptr.hpp', regex=r'#\s*define XENIUM_MAX_UPPER_MARK_BITS (\d+)'), ],
+  consts=[dict(name='XV_POP_OPTIONAL_TARGET', file=F, regex=r'::pop\(\) -> std::optional<value_type> \{\s*return (\w+)\(\s*\[\]\(auto& v\)'), dict(name='XV_SLOT_MARK_BITS', file=F, regex=r'using marked_value = xenium::marked_ptr<std::remove_pointer_t<raw_value_type>,\s*(\d+)>;'), dict(name='XV_MAX_UPPER_MARK_BITS', file='xenium/marked_ptr.hpp', regex=r'#\s*define XENIUM_MAX_UPPER_MARK_BITS (\d+)'), ],
   sources=[
     src('find_index_E', FI_SIG, 'static _Bool kfq_find_index_E(struct kfq* self, marked_ptr segment, uint64_t* value_index_p, marked_value* old_p)',
         subst=FI_SUBST + [(r'\bEmpty\b', '1', 'Empty')], must_fire={'A_LOAD': 1, 'subst:Empty': 2, 'subst:random': 1, 'method:items': 1, 'deref': 1}),
@@ -58,6 +58,10 @@ UNIT = dict(
     src('pop_success', r'\[&result\]\(auto& v\)', 'static _Bool kfq_pop_success(value_type* result_p, marked_value* v_p)', deref={},
         subst=[(r'\bresult\b', '(*result_p)', 'ref_result'), (r'\bv\b', '(*v_p)', 'ref_v')], must_fire={'subst:traits': 1, 'method:get': 1}),
     src('pop_empty', r'\[\]\(\) (?=\{ return false)', 'static _Bool kfq_pop_empty(void)', must_fire={}),
+    # pop(): the std::optional flavour of try_pop - the two lambdas it passes to do_pop, extracted as functions (std::optional<value_type> is a {present, value} pair)
+    src('opt_success', r'\[\]\(auto& v\) (?=\{ return traits::get)', 'static value_type kfq_opt_success(marked_value* v_p)', deref={},
+        subst=[(r'\bv\b', '(*v_p)', 'ref_v')], must_fire={'subst:traits': 1, 'method:get': 1}),
+    src('opt_empty', r'\[\]\(\) -> std::optional<value_type> ', 'static struct xv_opt kfq_opt_empty(void)', pre_subst=[(r'std::nullopt', 'XV_NULLOPT', 'nullopt')], must_fire={'subst:nullopt': 1}),
     src('do_pop', r'auto ' + CLS + r'do_pop\(SuccessFunc successFunc, EmptyFunc emptyFunc\)', 'static _Bool kfq_do_pop(struct kfq* self, value_type* result_p)',
         calls={'successFunc': 'XV_SUCCESSFUNC', 'emptyFunc': 'XV_EMPTYFUNC', 'release_segment': 'XV_RELEASE_SEGMENT'},
         must_fire={'A_LOAD': 3, 'A_CAS': 1, 'method:acquire': 1, 'subst:find_index_call': 1, 'subst:advance_head_call': 1, 'self_call:advance_tail': 1, 'call:successFunc': 1, 'call:emptyFunc': 1}),
@@ -72,7 +76,7 @@ UNIT = dict(
     dict(id='segment_dtor', file=F, sig=r'~segment\(\) override', c_sig='static void seg_dtor(struct segment* self)',
          members=['k'], self_calls={'items': 'SEGI'}, methods={'get': 'MV_get'}, must_fire={'A_LOAD': 1, 'self_call:items': 1}),
   ],
-  runs=[dict(id='slot_word', entry='h_slot_word', cls='unbounded', note='static fact about the slot word type')] + [dict(id='find_index_%s_k%d' % (v, K), entry='h_find_index_' + v, cls='shape-complete', tiers=QT if K <= 8 else TT,
+  runs=[dict(id='slot_word', entry='h_slot_word', cls='unbounded', note='static fact about the slot word type'), dict(id='pop_optional', entry='h_pop_optional', cls='unbounded', note='the functors of pop(), all slot words')] + [dict(id='find_index_%s_k%d' % (v, K), entry='h_find_index_' + v, cls='shape-complete', tiers=QT if K <= 8 else TT,
              defs={'KMAX': K, 'KLO': K}, unwind=max(K, 4) + 1, note='k = %d' % K) for K in range(1, 17) for v in 'EN'] + [
     dict(id='%s_k%d' % (op, K), entry='h_' + op, cls='shape-complete', tiers=QT if K <= 3 else TT, defs={'KMAX': K, 'KLO': K, 'XV_STUB': 1}, unwind=max(K, 4) + 1,
          unwindset=['kfq_push.1:3', 'kfq_do_pop.0:5'], flags=['--object-bits', '10'], timeout=1500, note='k = %d, 1..3 linked segments; callees = SEQ contract stubs' % K)
@@ -93,6 +97,7 @@ UNIT = dict(
     dict(id='advance_tail_int', entry='h_advance_tail_int', mode='INT', cls='shape-complete', defs={'KMAX': 2}, unwind=5, flags=['--object-bits', '10'], note='arbitrary environment, real text'),
   ],
   obligations={
+    'kfq.pop_optional.same_as_try_pop': dict(deciding=True, text='pop() forwards to the same do_pop as try_pop; its success functor hands out traits::get of exactly the pointer try_pop would store (once), its empty functor an empty optional: pop() returns a value iff try_pop would succeed, and the same one'),
     'kfq.slot.any_pointer': dict(deciding=True, text='the version tag of a slot (marked_value) fits into the upper mark bits of marked_ptr (MarkBits <= XENIUM_MAX_UPPER_MARK_BITS): no low bit of the stored pointer is used, so every pointer value - whatever its alignment, e.g. a char* - round-trips through the queue'),
     'kfq.find_index.covers': dict(deciding=True, text='for every random start the probes of find_index are pairwise distinct slots 0..k-1 of the segment, and all k are probed before false is returned'),
     'kfq.find_index.result': dict(deciding=True, text='find_index returns true with index and value of a matching slot, false only if no slot of the segment matches'),
@@ -119,7 +124,7 @@ UNIT = dict(
     'kfq.dtor.each_once': dict(deciding=True, text='the destructor destroys every value still inside exactly once (C07)'),
     'kfq.dtor.segments_released': dict(deciding=True, text='the destructor releases every segment reachable from head_ exactly once, after emptying it'),
   },
-  canaries=['slot_word.reached', 'find_index.found', 'find_index.found_last', 'find_index.none', 'push.allocated', 'push.helped_tail', 'push.bumped_head', 'push.plain', 'push.null', 'pop.empty', 'pop.not_the_oldest',
+  canaries=['slot_word.reached', 'pop_optional.reached', 'find_index.found', 'find_index.found_last', 'find_index.none', 'push.allocated', 'push.helped_tail', 'push.bumped_head', 'push.plain', 'push.null', 'pop.empty', 'pop.not_the_oldest',
             'pop.advanced_head', 'pop.advanced_tail', 'pop.allocated', 'committed_seq.at_head', 'committed_seq.behind_tail', 'advance_tail_seq.helped', 'advance_tail_seq.allocated', 'advance_head_seq.no_successor', 'advance_head_seq.moved_tail_too', 'advance_head_seq.plain', 'committed.taken', 'committed.at_head', 'committed.ahead', 'committed.deleted_but_head', 'committed.withdrawn', 'push_int.returned', 'pop_int.moved_tail', 'pop_int.true', 'pop_int.empty', 'advance_head_int.retired', 'advance_head_int.lost_race', 'advance_head_int.nothing', 'advance_head_int.moved_tail', 'advance_tail_int.linked', 'advance_tail_int.released_fresh', 'advance_tail_int.helped', 'advance_tail_int.nothing', 'ctor.reached', 'dri.tracked', 'dri.not_stored', 'dtor.tracked', 'dtor.not_stored', 'dtor.three_segments'],
   replays={'kfq.push.stores': dict(src='replay_seq.cpp', fixed={'op': 0}), 'kfq.pop.empty': dict(src='replay_seq.cpp', fixed={'op': 1}),
            'kfq.pop.oldest_segment': dict(src='replay_seq.cpp', fixed={'op': 1}), 'kfq.pop.k_oldest': dict(src='replay_seq.cpp', fixed={'op': 1})},
